@@ -147,6 +147,9 @@ def one_case(ctx, cls_name, cls, kind, labels, make, old_idx, new_idx, opts):
     populate(obj, len(old_idx), is_model)
     if is_model:
         obj.lags, obj.leads = 2, 1
+    for i in old_idx:
+        if labels[i] is not None:
+            obj['K', labels[i]]        # look-ups on the original must not influence the result
     before = snap.snapshot(obj)
     kw = {}
     fills = {}
@@ -208,6 +211,31 @@ def one_case(ctx, cls_name, cls, kind, labels, make, old_idx, new_idx, opts):
         if not same(got, want[k]):
             ctx.violation('reindex-values', f'{cls_name} over {kind}: variable {k} old labels {[labels[i] for i in old_idx]} -> new {[labels[i] for i in new_idx]}: got {got.tolist()} ({got.dtype}), expected {want[k].tolist()} ({want[k].dtype}) with {kw}', case)
             return
+    # label access on the result addresses the new span (not positions remembered from the old one)
+    new_labels = [labels[i] for i in new_idx]
+    for i, lab in enumerate(new_labels):
+        if new_labels.count(lab) != 1 or lab is None:
+            continue    # label access is specified for unique labels only
+        try:
+            got = res['K', lab]
+        except Exception as e:
+            ctx.violation('reindex-label-access', f'after reindex, result["K", {lab!r}] raised {type(e).__name__}: {e}', case)
+            return
+        ctx.count('label_reads_after_reindex')
+        if np.ndim(got) != 0 or got != want['K'][i]:
+            ctx.violation('reindex-label-access', f'after reindex, result["K", {lab!r}] = {got!r} but position {i} of the new span holds {want["K"][i]!r}', case)
+            return
+    for i in old_idx:
+        if i not in new_idx and labels[i] is not None:
+            try:
+                r = res['K', labels[i]]
+                ctx.violation('reindex-label-access', f'label {labels[i]!r} was dropped by reindex but result["K", label] returned {r!r}', case)
+                return
+            except KeyError:
+                pass
+            except Exception as e:
+                ctx.violation('reindex-label-access', f'dropped label {labels[i]!r}: expected KeyError, got {type(e).__name__}', case)
+                return
     # attributes, lags / leads
     for a in ('memo', 'lags', 'leads', 'names', 'endogenous', 'check'):
         if a in obj.__dict__ and repr(res.__dict__.get(a)) != repr(obj.__dict__[a]):
